@@ -96,3 +96,29 @@ let rword2_line line =
         | None -> sk_rps w ^ " " ^ ph ^ " none" ^ tail)
      | None -> "unmodelled")
   | _ -> failwith "rword2: bad case"
+
+(* words with braced parameter expansions (Lex/Reprint3.v) *)
+let rec sk_rq (p : rq) : string =
+  let enc l = hexb (List.concat_map (fun r -> encode_rune r) l) in
+  match p with
+  | QL t -> "L" ^ enc t
+  | QQ (tok, v) -> "Q" ^ enc [tok] ^ (match v with [] -> "N" | _ -> sk_rqs v)
+  | QP n -> "P0{" ^ enc n ^ "::N}"
+  | QB (n, op, w) -> "P1{" ^ enc n ^ ":" ^ enc op ^ ":" ^ (match w with None -> "N" | Some l -> sk_rqs l) ^ "}"
+and sk_rqs (l : rq list) : string = "[" ^ String.concat "," (List.map sk_rq l) ^ "]"
+
+let rword3_line line =
+  match String.split_on_char '\t' line with
+  | h :: _ ->
+    let rs = runes_of_string (string_of_hex h) @ [n_of_int 10] in
+    (match scan_word3 (nat_of_int (2 * List.length rs + 4)) rs [] with
+     | Some ([], _) -> "noarg"
+     | Some (w, rest) ->
+       let tail = " " ^ string_of_int (List.length rest) in
+       let p = print_parts3 w in
+       let ph = hexb (List.concat_map (fun r -> encode_rune r) p) in
+       (match scan_word3 (nat_of_int (2 * List.length p + 6)) (p @ [n_of_int 10]) [] with
+        | Some (w2, _) -> sk_rqs w ^ " " ^ ph ^ " " ^ sk_rqs w2 ^ tail
+        | None -> sk_rqs w ^ " " ^ ph ^ " none" ^ tail)
+     | None -> "unmodelled")
+  | _ -> failwith "rword3: bad case"
